@@ -8,3 +8,8 @@ check("C18",
  "Decides the schedule-independent obligation the property itself names, in an alias-aware form: in code reachable from any exported entry point no store/copy/append/map-update/external write may target (1) a package-level variable or anything reachable from one, (2) a codec instance or anything reachable from it, (3) the caller's parameters object except guarded normalisation; and library code uses no goroutines/sync/atomic/unsafe/reflect/cgo. Exhaustive over the resolved program (every effect site is an obligation). It does not execute schedules or a race detector, so it proves absence of shared writes, not equality of results.",
  "trusted: go/ssa + VTA call graph (CHA in thorough), frozen effect table for ~40 standard-library callees, context-insensitive heap abstraction with separate init/run contexts; one reviewed exception (init-guarded VLC table regeneration) with a structural keep-alive condition",
  "DESIGN.md §4 C18, §3.2")
+check("C10",
+ "CFG shape rule for frame loops + points-to/effects + field carry-over (must-definition) analysis",
+ "Decides the structural clauses of the codec contract: (1) every codec's GetFrame/AddFrame pairing is a counted loop 0..FrameCount()-1 with exactly one dominating AddFrame per cycle fed by that iteration's frame and error-only early exits; (2) no state is carried between calls or frames on jpeg2000.Encoder/Decoder objects and on any object a codec allocates outside its frame loop (fields read before being re-assigned and written during a call; accumulate-only / never-reset / incompletely keyed caches are violations); (3) no write effect on the caller's input bytes; (4) no nondeterminism sources, every map range order-insensitive; (5) information-flow necessary condition for the decoded container width to follow BitsAllocated. Byte equality of lossless round trips and numeric output are not decided.",
+ "trusted: as C18 (shared engine E1) plus the must-definition analysis' treatment of nil/error guards; known findings: 6 codecs ignore BitsAllocated (recorded, not repaired)",
+ "DESIGN.md §4 C10, §3.2")
